@@ -124,12 +124,9 @@ Definition mon_C05 (b : base) (te : Z * ev) : list alarm :=
       | None => [505]
       end
   | EStatus i st il lid tok rev pl plid ptok =>
-      if zb il && zb pl then
-        match latest_by (b_hist b) (ic_key (cfg_of b i)) i with
-        | Some v => when (negb ((tok_of b (ver_val v) =? tok) && (ptok =? tok))) 506
-        | None => [506]
-        end
-      else []
+      (* the token of the current term, i.e. the token of the write that raised the claim (504/505 tie it
+         to the stored record at promotion time; refreshes keep it by 503) *)
+      if zb il && zb pl then when (negb ((tok =? io_tok (inst_of b i)) && (ptok =? tok))) 506 else []
   | _ => []
   end.
 
@@ -301,7 +298,7 @@ Definition mon_C09 (b : base) (m : mst) (te : Z * ev) : list alarm :=
             when (negb (b_ended b) && (call =? aStop) && (t0 + bound + 0 <? t - 0) && negb (ic_hasdemote (cfg_of b i))) 905 ++
             when ((res =? 0) && del && owned &&
                   (* the deletion itself was answered by the store (no injected failure) *)
-                  match aget (b_rets b) g0 with Some r => (lr_kind r =? kDelete) && (lr_rk r <? 10) | None => true end &&
+                  match aget (b_rets b) g0 with Some r => if lr_kind r =? kDelete then lr_rk r <? 10 else true | None => true end &&
                   match live_val b (ic_key (cfg_of b i)) with
                   | Some (_, v) => sok_of b v && (sid_of b v =? i)
                   | None => false
